@@ -156,8 +156,8 @@ impl Check for C01 {
             real: &["h3 client (builder, Connection driver, SendRequest, RequestStream)", "h3 server (builder, Connection, RequestResolver, RequestStream)", "h3 connection/frame/stream/buf/proto/qpack modules", "http, bytes, tokio::sync::mpsc"],
             stub: &["QUIC transport (SimQuic, both ends)", "executor (simexec)", "applications (models following the documented call pattern)"],
             assumptions: &["header names/values are ones the http crate and h3 accept (no connection-specific fields, no content-length)", "targets are given with a scheme and authority; an empty path is expected as \"/\""],
-            quick_runs: 100_000,
-            thorough_runs: 5_000_000,
+            quick_runs: 400_000,
+            thorough_runs: 16_000_000,
         }
     }
     fn run(&self, ctx: &RunCtx) -> RunOut {
